@@ -273,3 +273,11 @@ func SelfTest() error {
 	}
 	return nil
 }
+
+// KeyOf returns the serialized public key SLIP-0010 prescribes for a valid 32-byte private key.
+func (p *Params) KeyOf(priv []byte) ([]byte, error) {
+	if len(priv) != 32 {
+		return nil, errors.New("slip10m: private key must have 32 bytes")
+	}
+	return p.pubOf(priv), nil
+}
